@@ -160,4 +160,38 @@ theorem subparse_no_internal_aux (P : Parsers) (hP : P.Faithful) (toks : List PT
         · exact absurd hk h2
         · exact absurd hk h3
 
+theorem transBlock_no_internal_aux (toks : List PTok) (hS : Shape toks) (ap : Bool) :
+    ∀ fuel p, RootPos toks p → transBlock toks ap fuel p ≠ .internal := by
+  intro fuel
+  induction fuel with
+  | zero => intro p _; simp [transBlock]
+  | succ n ih =>
+    intro p hp
+    unfold transBlock
+    split
+    · simp
+    · rename_i t ht
+      have hk := root_kind toks p t hS hp ht
+      split
+      · rename_i hd
+        exact ih (p + 1) (rootPos_data toks p t hp ht hd)
+      · split
+        · rename_i q hq
+          split
+          · rename_i q' hq'
+            obtain ⟨t', ht', hk', rfl⟩ := expect_ok _ _ _ _ hq'
+            exact ih _ (rootPos_end toks _ t' hS ht' (Or.inl hk'))
+          · exact expect_ne_internal _ _ _
+        · exact expect_ne_internal _ _ _
+      · split
+        · split
+          · simp
+          · split <;> simp
+        · simp
+      · rename_i h1 h2 h3
+        rcases hk with hk | hk | hk
+        · exact absurd hk h1
+        · exact absurd hk h2
+        · exact absurd hk h3
+
 end JinjaV.ParseShape
